@@ -1031,3 +1031,77 @@ def show(x) -> str:
     if isinstance(x, tuple):
         return '(' + ', '.join(show(i) for i in x) + ')'
     return repr(x)
+
+
+# ---------------------------------------------------------------------------
+# evaluation at a witness point (used to decide comparisons in finite-domain analyses)
+
+class EvalError(Exception):
+    pass
+
+
+def evaluate(r: Rat, val: dict, fns: dict | None = None):
+    """Value of the scalar term at the point `val` (symbol name -> Fraction).  Exact (Fraction)
+    whenever every power that occurs is rational-valued; EvalError for anything else."""
+    def power(b, e: F):
+        if e.denominator == 1:
+            if b == 0 and e < 0:
+                raise EvalError('division by zero')
+            return F(b) ** int(e)
+        b = F(b)
+        if b < 0:
+            raise EvalError('fractional power of a negative number')
+        n, d = b.numerator, b.denominator
+        k = e.denominator
+        rn, rd = round(n ** (1 / k)), round(d ** (1 / k))
+        if rn ** k == n and rd ** k == d:
+            return F(rn, rd) ** e.numerator
+        raise EvalError(f'irrational power {b}^{e}')
+
+    def atom_value(a: Atom):
+        if a.kind == 'sym':
+            if a.name in val:
+                return F(val[a.name])
+            raise EvalError(f'no witness value for {a.name}')
+        if a.kind == 'prime':
+            return F(int(a.name))
+        if a.kind == 'base':
+            return evaluate(a.args[0], val, fns)
+        if a.kind == 'fn':
+            args = [evaluate(x, val, fns) if isinstance(x, Rat) else x for x in a.args]
+            if fns and a.name in fns:
+                return F(fns[a.name](*args))
+            if a.name == 'abs':
+                return abs(args[0])
+            if a.name in ('pymax', 'max2'):
+                return max(args)
+            if a.name in ('pymin', 'min2'):
+                return min(args)
+            if a.name.startswith('cmp'):
+                op = a.name[3:]
+                d = args[0]
+                return F(int({'<': d < 0, '<=': d <= 0, '==': d == 0, '!=': d != 0}[op]))
+            if a.name == 'not':
+                return F(int(not args[0]))
+            if a.name == 'where':
+                return args[1] if args[0] else args[2]
+            if a.name in ('and', 'or'):
+                return F(int(all(args) if a.name == 'and' else any(args)))
+        raise EvalError(f'atom {show_atom(a)} has no witness value')
+
+    def poly(p):
+        total = F(0)
+        for mono, c in p.items():
+            t = F(c)
+            for aid, e in mono:
+                t *= power(atom_value(A(aid)), F(e))
+            total += t
+        return total
+
+    n = poly(r.num)
+    if r.den is ONE_P:
+        return n
+    d = poly(r.den)
+    if d == 0:
+        raise EvalError('division by zero')
+    return n / d
